@@ -21,6 +21,7 @@ LEVEL = "model_checking"
 LEAF_VALUES = [
     (E.T_INT, -1), (E.T_INT, -(2 ** 63)), (E.T_INT, 2 ** 63 - 1), (E.T_UINT, 2 ** 64 - 1), (E.T_UINT, 2 ** 63), (E.T_UINT, 0),
     (E.T_DOUBLE, -0.5), (E.T_DOUBLE, 1e300), (E.T_BOOL, True), (E.T_BOOL, False), (E.T_STRING, ""), (E.T_STRING, "plain"),
+    (E.T_BOOL, ("raw", 0x100)), (E.T_BOOL, ("raw", 0x80000000)), (E.T_BOOL, ("raw", 0xFFFFFF00)), (E.T_BOOL, ("raw", 0x10000)), (E.T_BOOL, ("raw", 0)),
     (E.T_STRING, "ünï-😀-𝄞"), (E.T_STRING, "\ufeffstarts with U+FEFF"), (E.T_STRING, "\ufffestarts with U+FFFE"), (E.T_STRING, "s" * 0x3FF), (E.T_STRING, "L" * 0x400), (E.T_STRING, "B😀" * 0x300),
     (E.T_ARRAY, b""), (E.T_ARRAY, bytes(range(256))), (E.T_ARRAY, bytes(range(256)) * 8), (E.T_ARRAY, b"\xff" * 0x7FF), (E.T_ARRAY, b"\x01" * 5000),
 ]
@@ -39,7 +40,10 @@ def make_nodes(x, rng):
             nodes.append({"id": n, "parent": par[n], "tbl": tbl[n], "key": key, "type": E.T_NODE, "value": n})
         else:
             t, v = rng.choice(LEAF_VALUES)
-            nodes.append({"id": n, "parent": par[n], "tbl": tbl[n], "key": key, "type": t, "value": v})
+            nd = {"id": n, "parent": par[n], "tbl": tbl[n], "key": key, "type": t, "value": v}
+            if isinstance(v, tuple):   # a boolean stored as an arbitrary 32-bit word: true iff non-zero
+                nd["value"], nd["stored"] = v[1] != 0, v
+            nodes.append(nd)
     return nodes
 
 
